@@ -218,7 +218,7 @@ CHECKS["C02"] = {
          "gen_stubs": [{"pkgpath": "github.com/ProtonMail/gluon/connector", "iface": "Connector", "type": "verifConnBase"}],
          "params": {"quick": grid(k=[1, 2, 3]), "thorough": grid(k=[3, 4])},
          "cover": ["mailboxes-updated", "flags-updated", "deleted"]},
-        {"name": "queue", "pkg": "async", "pkgname": "async", "entry": "VerifC02Queue", "files": ["zz_verif_c02.go"], "goroutines": True,
+        {"name": "queue", "pkg": "async", "pkgname": "async", "entry": "VerifC02Queue", "files": ["zz_verif_c02.go"], "goroutines": True, "replay_timeout_s": 40,
          "params": {"quick": grid(k=[2], burst=[3]), "thorough": grid(k=[3], burst=[3]) + grid(k=[2], burst=[5])},
          "cover": ["queue-drained"]},
         {"name": "session", "pkg": "internal/session", "pkgname": "session", "entry": "VerifC01Session", "files": ["zz_verif_c18.go", "zz_verif_c18b.go", "zz_verif_c01.go"],
